@@ -1986,6 +1986,80 @@ class Interp:
         else:
             self.exec_block(s.orelse, fr)
 
+    def s_Match(self, s, fr):
+        subject = self.eval(s.subject, fr)
+        for case in s.cases:
+            if self.match_pattern(case.pattern, subject, fr, s) and (case.guard is None or self.truth(self.eval(case.guard, fr))):
+                self.exec_block(case.body, fr)
+                return
+
+    def match_pattern(self, p, v, fr, node) -> bool:
+        """Structural pattern matching (PEP 634) on abstract values; forms that cannot be decided fail closed."""
+        from .intrinsics import b_isinstance
+        if isinstance(p, ast.MatchValue):
+            return self.eq(v, self.eval(p.value, fr), node)
+        if isinstance(p, ast.MatchSingleton):
+            return self.identical(v, Const(p.value))
+        if isinstance(p, ast.MatchOr):
+            return any(self.match_pattern(q, v, fr, node) for q in p.patterns)
+        if isinstance(p, ast.MatchAs):
+            if p.pattern is not None and not self.match_pattern(p.pattern, v, fr, node):
+                return False
+            if p.name is not None:
+                fr.env[p.name] = v
+            return True
+        if isinstance(p, ast.MatchSequence):
+            v2 = self.force(v)
+            items = None
+            if isinstance(v2, (Tup, ArrV)):
+                items = list(v2.items)
+            elif isinstance(v2, NT):
+                items = list(v2.items)
+            elif isinstance(v2, Ref) and isinstance(self.deref(v2), AList) and self.deref(v2).items is not None:
+                items = list(self.deref(v2).items)
+            elif isinstance(v2, (Const, Str, Bytes, Num, Member)) or (isinstance(v2, Ref) and not isinstance(self.deref(v2), AList)):
+                return False                      # str, bytes, numbers, None, enum members, dicts and objects are not sequences
+            if items is None:
+                raise AnalysisError(f"sequence pattern on a value the analysis cannot enumerate (line {getattr(p, 'lineno', '?')})")
+            stars = [i for i, q in enumerate(p.patterns) if isinstance(q, ast.MatchStar)]
+            if not stars:
+                if len(items) != len(p.patterns):
+                    return False
+                return all(self.match_pattern(q, x, fr, node) for q, x in zip(p.patterns, items))
+            k = stars[0]
+            after = len(p.patterns) - k - 1
+            if len(items) < k + after:
+                return False
+            head, mid, tail = items[:k], items[k:len(items) - after], items[len(items) - after:]
+            if not all(self.match_pattern(q, x, fr, node) for q, x in zip(p.patterns[:k], head)):
+                return False
+            if not all(self.match_pattern(q, x, fr, node) for q, x in zip(p.patterns[k + 1:], tail)):
+                return False
+            if p.patterns[k].name is not None:
+                fr.env[p.patterns[k].name] = self.alloc(AList(list(mid)))
+            return True
+        if isinstance(p, ast.MatchClass):
+            clsv = self.eval(p.cls, fr)
+            if not self.truth(b_isinstance(self, None, [v, clsv], {}, node)):
+                return False
+            if p.patterns:
+                name = ast.unparse(p.cls)
+                if len(p.patterns) == 1 and name in ("str", "int", "float", "bool", "bytes", "list", "tuple", "dict", "set", "frozenset", "bytearray"):
+                    if not self.match_pattern(p.patterns[0], v, fr, node):
+                        return False
+                else:
+                    v2 = self.force(v)
+                    if isinstance(v2, NT) and len(p.patterns) <= len(v2.items):
+                        if not all(self.match_pattern(q, x, fr, node) for q, x in zip(p.patterns, v2.items)):
+                            return False
+                    else:
+                        raise AnalysisError(f"positional class pattern {name}(...) is not modelled (line {getattr(p, 'lineno', '?')})")
+            for attr, q in zip(p.kwd_attrs, p.kwd_patterns):
+                if not self.match_pattern(q, self.getattr(v, attr, node), fr, node):
+                    return False
+            return True
+        raise AnalysisError(f"pattern {type(p).__name__} is not modelled (line {getattr(p, 'lineno', '?')})")
+
     def _live_list_iter(self, it):
         """Python iterates a list by index and re-reads it at every step, so a body that
         removes or appends elements changes which elements are visited."""
